@@ -35,7 +35,7 @@ def held_state(fit):
     cor = fit.parameter_cor_mat
     return dict(names=list(fit.parameter_names), values=[float(v) for v in fit.parameter_values],
                 errors=None if pe is None else [float(v) for v in pe], cor=None if cor is None else np.asarray(cor, dtype=float),
-                cost=float(fit.cost_function_value), gof=None if fit.goodness_of_fit is None else float(fit.goodness_of_fit), ndf=int(fit.ndf),
+                cost=float(fit.cost_function_value), gof=None if fit.goodness_of_fit is None else float(fit.goodness_of_fit), ndf=None if fit.ndf is None else int(fit.ndf),
                 chi2p=None if fit.chi2_probability is None else float(fit.chi2_probability), did_fit=did, errors_valid=bool(fit.errors_valid),
                 fixed=sorted(fit._fitter.fixed_parameters.keys()))
 
@@ -227,18 +227,26 @@ def check_preface(fit):
 class Sys:
     def __init__(self, ftype):
         self.ftype = ftype
+        self.n_added = 0
+        if ftype == "custom":
+            from kafe2 import CustomFit
+            from .fileio import _custom_cost
+            self.fit = CustomFit(_custom_cost)
+            self.names = ("a", "b", "c")
+            self.pvals = {"a": (1.2, 1.9), "b": (0.4, 1.1), "c": (-0.3, 0.6)}
+            return
         self.fit = fl.make_fit(ftype)
         if ftype in ("xy", "xyq", "indexed"):
             fl.add_source(self.fit, ftype, "ey1")
         self.names = fl.PARAMS[ftype]
-        self.n_added = 0
+        self.pvals = fl.PVALS[ftype]
 
     def step(self, a):
         f = self.fit
         n = a["name"]
         if n == "SetPar":
             nm = self.names[a["p"] - 1]
-            f.set_parameter_values(**{nm: fl.PVALS[self.ftype][nm][a["v"] - 1]})
+            f.set_parameter_values(**{nm: self.pvals[nm][a["v"] - 1]})
         elif n == "Fix":
             f.fix_parameter(self.names[a["p"] - 1])
         elif n == "Release":
@@ -306,6 +314,10 @@ def replay_indexed(w):
 
 def replay_unbinned(w):
     return replay_walk(w, "unbinned")
+
+
+def replay_custom(w):
+    return replay_walk(w, "custom")
 
 
 def make_replay(ftype):
